@@ -11,7 +11,7 @@
     prefix once ([NoDup]) and do not bind the empty prefix (XPath 1.0 has no such binding). *)
 From Coq Require Import List NArith Bool.
 From XmlRs Require Import Base.CPred Spec.AttrNorm Spec.Namespaces Model.NsModel
-  Proofs.NamespacesScope Proofs.NamespacesNames Proofs.NamespacesDoc Proofs.NsExamples.
+  Proofs.NamespacesScope Proofs.NamespacesNames Proofs.NamespacesDoc Proofs.NsExamples Proofs.NamespacesDefaults.
 Import ListNotations.
 Open Scope N_scope.
 
@@ -108,6 +108,114 @@ Theorem declarations_inherited : forall x up p,
   assoc (el_decls x) p = None -> ns_lookup (env_of (x :: up)) p = ns_lookup (env_of up) p.
 Proof. exact inherited_proof. Qed.
 
+(** *** documents WITH a DTD: namespace declarations (and attributes) supplied by attribute-list defaults (D67).
+    [nsdtd] = the attribute definitions of all ATTLIST declarations in document order; [default_tree d t] is
+    the document after XML 1.0 3.3 / 3.3.2 (first definition binding; a declared default VALUE supplies what is not
+    written; a written declaration wins), to which Namespaces in XML is then applied ([spec_ddoc], [spec_dselect]);
+    [m_default_tree] is what xml-info's [declaration_att_defs], [namespace_attributes] and [attributes] compute after
+    /repo commit bf629dc.  Hypotheses: [nsdtd_ok] = no definition declares or uses the reserved prefix xmlns;
+    [nsdtd_no_required_attr] = no #REQUIRED definition of an ORDINARY attribute (xml-info materialises it: listed
+    finding D36 of C11; refuted without it below).  The theorems above are the instances [d = []] ([default_tree_nil]). *)
+Theorem defaulting_refines : forall d t, nsdtd_no_required_attr d = true -> m_default_tree d t = default_tree d t.
+Proof. exact default_tree_refines. Qed.
+
+(** ... the namespace declarations of an element never need the hypothesis *)
+Theorem defaulted_declarations_refine : forall d x,
+  el_decls (m_default_elem d x) = el_decls x ++ decls_in (defaulted d x).
+Proof. exact namespace_attributes_refines. Qed.
+
+Theorem defaulting_required_refuted : exists d x, m_default_elem d x <> default_elem d x.
+Proof. exists ex_req_dtd, ex_req_elem. exact default_elem_required_refuted. Qed.
+
+Theorem defaulting_without_dtd : forall t, default_tree [] t = t.
+Proof. exact default_tree_nil. Qed.
+
+(** defaulting keeps the syntactic conditions: the hypotheses below speak about the document as written *)
+Theorem defaulting_keeps_tree_ok : forall d t, nsdtd_ok d = true -> tree_ok t = true -> tree_ok (default_tree d t) = true.
+Proof. exact default_tree_ok. Qed.
+
+Theorem in_scope_refines_dtd : forall d chain,
+  chain <> [] -> chain_ok chain = true -> nsdtd_ok d = true -> nsdtd_no_required_attr d = true ->
+  NoDup (map fst (m_in_scope (map (m_default_elem d) chain))) /\
+  forall p u, In (p, u) (m_in_scope (map (m_default_elem d) chain))
+              <-> In (p, u) (in_scope (env_of (map (default_elem d) chain))).
+Proof. exact in_scope_refines_dtd_proof. Qed.
+
+Theorem expanded_names_refine_dtd : forall d x up en,
+  chain_ok (x :: up) = true -> nsdtd_ok d = true -> nsdtd_no_required_attr d = true ->
+  resolve_elem (env_of (map (default_elem d) (x :: up))) (el_name x) = Some en ->
+  m_elem_dom (map (m_default_elem d) (x :: up)) = Some en /\ m_elem_info (map (m_default_elem d) (x :: up)) = Some en.
+Proof. exact elem_name_refines_dtd. Qed.
+
+(** ... [q] ranges over the written AND the defaulted ordinary attributes *)
+Theorem attribute_names_refine_dtd : forall d x up q en,
+  chain_ok (x :: up) = true -> nsdtd_ok d = true -> nsdtd_no_required_attr d = true ->
+  In q (el_attrs (default_elem d x)) ->
+  resolve_attr (env_of (map (default_elem d) (x :: up))) q = Some en ->
+  m_attr_dom (map (m_default_elem d) (x :: up)) q = en /\ m_attr_info (map (m_default_elem d) (x :: up)) q = en.
+Proof. exact attr_name_refines_dtd. Qed.
+
+Theorem document_refines_dtd : forall d t, tree_ok t = true -> nsdtd_ok d = true -> nsdtd_no_required_attr d = true ->
+  model_ddoc d t = map model_obs (chains [] (default_tree d t)) /\
+  spec_ddoc d t = flat_map obs_of_chain (chains [] (default_tree d t)) /\
+  Forall (fun c =>
+    match c with
+    | x :: up =>
+        (forall en, resolve_elem (env_of c) (el_name x) = Some en -> m_elem_dom c = Some en /\ m_elem_info c = Some en) /\
+        (forall q en, In q (el_attrs x) -> resolve_attr (env_of c) q = Some en -> m_attr_dom c q = en /\ m_attr_info c q = en) /\
+        NoDup (map fst (m_in_scope c)) /\
+        (forall p u, In (p, u) (m_in_scope c) <-> In (p, u) (in_scope (env_of c)))
+    | [] => False
+    end) (chains [] (default_tree d t)).
+Proof. exact doc_refines_dtd_proof. Qed.
+
+(** [attrs = true] with ordinary attributes supplied by default: the model selects them in document order; the
+    crates give those nodes order key 0 (listed finding D19 of C05 / C07), so the [ns] correspondence asks [//@T]
+    only where the DTD supplies declarations *)
+Theorem selection_refines_dtd : forall b t attrs d doc,
+  NoDup (map fst b) -> tree_ok doc = true -> nsdtd_ok d = true -> nsdtd_no_required_attr d = true ->
+  doc_nswf (default_tree d doc) = true -> test_ok b t = true ->
+  model_dselect b t attrs d doc = spec_dselect b t attrs d doc.
+Proof. exact select_refines_dtd_proof. Qed.
+
+(** *** prefix renaming with a DTD: the prefixes of the document AND of the attribute definitions (element types,
+    declared prefixes, prefixed attribute names) are renamed together; [nsdtd_prefixes] lists the latter *)
+Theorem defaulting_commutes_with_renaming : forall f d t, consistent f (tree_prefixes t ++ nsdtd_prefixes d) ->
+  default_tree (rn_nsdtd f d) (rn_tree f t) = rn_tree f (default_tree d t).
+Proof. exact default_tree_rn_consistent. Qed.
+
+Theorem doc_prefix_renaming_dtd : forall f d t, consistent f (tree_prefixes t ++ nsdtd_prefixes d) ->
+  map strip (spec_ddoc (rn_nsdtd f d) (rn_tree f t)) = map (rn_strip f) (spec_ddoc d t).
+Proof. exact doc_prefix_renaming_dtd_proof. Qed.
+
+Theorem doc_prefix_renaming_select_dtd : forall f b t attrs d doc,
+  consistent f (tree_prefixes doc ++ nsdtd_prefixes d) ->
+  spec_dselect b t attrs (rn_nsdtd f d) (rn_tree f doc) = option_map (map (rn_ref f)) (spec_dselect b t attrs d doc).
+Proof. exact doc_prefix_renaming_select_dtd_proof. Qed.
+
+Theorem expr_prefix_renaming_dtd : forall f b t attrs d doc,
+  injective_on f (map fst b ++ test_prefixes t) ->
+  spec_dselect (rn_bindings f b) (rn_test f t) attrs d doc = spec_dselect b t attrs d doc.
+Proof. exact expr_prefix_renaming_dtd_proof. Qed.
+
+Theorem model_doc_prefix_renaming_dtd : forall f b t attrs d doc,
+  NoDup (map fst b) -> test_ok b t = true ->
+  tree_ok doc = true -> tree_ok (rn_tree f doc) = true -> nsdtd_ok d = true -> nsdtd_ok (rn_nsdtd f d) = true ->
+  nsdtd_no_required_attr d = true -> doc_nswf (default_tree d doc) = true ->
+  consistent f (tree_prefixes doc ++ nsdtd_prefixes d) ->
+  model_dselect b t attrs (rn_nsdtd f d) (rn_tree f doc) = option_map (map (rn_ref f)) (model_dselect b t attrs d doc).
+Proof. exact model_doc_renaming_dtd_proof. Qed.
+
+Theorem model_expr_prefix_renaming_dtd : forall f b t attrs d doc,
+  NoDup (map fst b) -> test_ok b t = true -> tree_ok doc = true -> nsdtd_ok d = true ->
+  nsdtd_no_required_attr d = true -> doc_nswf (default_tree d doc) = true ->
+  injective_on f (map fst b ++ test_prefixes t) ->
+  model_dselect (rn_bindings f b) (rn_test f t) attrs d doc = model_dselect b t attrs d doc.
+Proof. exact model_expr_renaming_dtd_proof. Qed.
+
+(** the hypotheses are satisfiable by D67's document (Proofs/NamespacesDefaults.v: [ex_ddoc_hyps], [ex_ddoc_names],
+    [ex_drn_consistent]): it is namespace-well-formed only because of the defaults *)
+
 Print Assumptions in_scope_refines.
 Print Assumptions in_scope_is_lookup.
 Print Assumptions expanded_names_refine.
@@ -122,3 +230,19 @@ Print Assumptions expr_prefix_renaming.
 Print Assumptions model_doc_prefix_renaming.
 Print Assumptions model_expr_prefix_renaming.
 Print Assumptions xml_prefix_always_bound.
+Print Assumptions defaulting_refines.
+Print Assumptions defaulted_declarations_refine.
+Print Assumptions defaulting_required_refuted.
+Print Assumptions defaulting_without_dtd.
+Print Assumptions defaulting_keeps_tree_ok.
+Print Assumptions in_scope_refines_dtd.
+Print Assumptions expanded_names_refine_dtd.
+Print Assumptions attribute_names_refine_dtd.
+Print Assumptions document_refines_dtd.
+Print Assumptions selection_refines_dtd.
+Print Assumptions defaulting_commutes_with_renaming.
+Print Assumptions doc_prefix_renaming_dtd.
+Print Assumptions doc_prefix_renaming_select_dtd.
+Print Assumptions expr_prefix_renaming_dtd.
+Print Assumptions model_doc_prefix_renaming_dtd.
+Print Assumptions model_expr_prefix_renaming_dtd.
